@@ -305,4 +305,13 @@ def search(ctx):
 
 
 def probe(kf):
-    return False
+    """Replay a recorded known finding on the implementation; True if it still fails."""
+    from jsonpath import JSONPatch
+
+    pr = kf["probe"]
+    try:
+        first = JSONPatch(pr["ops"]).asdicts()
+        again = JSONPatch(first).asdicts()
+        return not (first[0]["path"] == pr["expect_path"] and again == first)
+    except Exception:  # noqa: BLE001
+        return True
